@@ -82,6 +82,22 @@ func idText(cls string, k int) string {
 }
 
 // Concrete renders a cell as a JSON object text; variant selects key order / whitespace.
+// oddName: the names of methods nobody has registered are arbitrary strings - control characters, DEL, characters
+// beyond the basic plane included (what a name holds must not change what the server answers). Returns the JSON
+// text and the decoded name, by cell.
+func oddName(class string, k int) [2]string {
+	names := [][2]string{{`"nope"`, "nope"}, {`"no\u0007pe"`, "no\apep"[:3] + "pe"}, {"\"no\x7fpe\"", "no\x7fpe"}, {`"\u0000nul"`, "\x00nul"},
+		{`"tag\udb40\udc01"`, "tag\U000e0001"}, {`"nope"`, "nope"}, {`"v\u000bt\u001f"`, "v\vt\x1f"}}
+	n := names[k%len(names)]
+	if class == "reserved" {
+		if n[1] == "nope" {
+			return [2]string{`"rpc.nope"`, "rpc.nope"}
+		}
+		return [2]string{`"rpc.` + n[0][1:], "rpc." + n[1]}
+	}
+	return n
+}
+
 func Concrete(c cellJSON, k int, variant int, rng *rand.Rand) string {
 	var kv [][2]string
 	switch c.Ver {
@@ -101,9 +117,9 @@ func Concrete(c cellJSON, k int, variant int, rng *rand.Rand) string {
 	case "known":
 		kv = append(kv, [2]string{"method", `"h"`})
 	case "unknown":
-		kv = append(kv, [2]string{"method", `"nope"`})
+		kv = append(kv, [2]string{"method", oddName("unknown", k)[0]})
 	case "reserved":
-		kv = append(kv, [2]string{"method", `"rpc.nope"`})
+		kv = append(kv, [2]string{"method", oddName("reserved", k)[0]})
 	case "info":
 		kv = append(kv, [2]string{"method", `"rpc.serverInfo"`})
 	case "empty":
@@ -478,7 +494,7 @@ func checkParse(rec []byte, cells []cellJSON, ks []int, nonobj []bool) string {
 			if p.ID != wantID {
 				return fmt.Sprintf("entry %d: ID %q, want %q", i, p.ID, wantID)
 			}
-			wantM := map[string]string{"known": "h", "unknown": "nope", "reserved": "rpc.nope", "info": "rpc.serverInfo"}[c.Method]
+			wantM := map[string]string{"known": "h", "unknown": oddName("unknown", ks[i])[1], "reserved": oddName("reserved", ks[i])[1], "info": "rpc.serverInfo"}[c.Method]
 			if p.Method != wantM {
 				return fmt.Sprintf("entry %d: Method %q, want %q", i, p.Method, wantM)
 			}
